@@ -153,9 +153,11 @@ class ClingoResultParser:
         if signature.objects:
             for object_complement in signature.objects:
                 string += self._convert_attribute_to_entity(object_complement, signature.new_entity)
-        return f"{subject} {verb}" \
-               f"{self._entity_printer(signature.new_entity.get_name(), signature.new_entity.get_keys_and_attributes())} " \
-               f"{string}".capitalize().strip() + "."
+        sentence = f"{subject} {verb}" \
+                   f"{self._entity_printer(signature.new_entity.get_name(), signature.new_entity.get_keys_and_attributes())} " \
+                   f"{string}".strip()
+        # upper-case the first letter only: str.capitalize() would lower-case the values of the atom
+        return sentence[:1].upper() + sentence[1:] + "."
 
     def parse_model(self, model: list[str]):
         self._get_new_knowledge()
